@@ -815,6 +815,7 @@ func checkC20(w *World, r *Report) {
 	ruleProxyForward(w, r, "C20")
 	ruleFormulas(w, r, "C20")
 	ruleCounterQuantities(w, r, "C20")
+	ruleSpeedText(w, r, "C20")
 	ruleSamplesReach(w, r, "C20")
 	ruleUnwrap(w, r, "C20")
 	ruleWrappersUnwrap(w, r, "C20")
